@@ -3,6 +3,7 @@ package main
 // check.go — the registered check: one property, all its claimed obligations, evidence, verdict.
 
 import (
+	"reflect"
 	"bufio"
 	"encoding/json"
 	"flag"
@@ -257,9 +258,14 @@ func cmdCheck(args []string) int {
 	known := loadKnownFindings(filepath.Join(*verif, "known_findings.txt"))
 	total, proved, structural := 0, 0, 0
 	var failed []*Job
+	structSamples := 0
 	kfHit := map[int]bool{}
-	var samples []map[string]any
+	samples := []map[string]any{}
 	for _, j := range jobs {
+		if j.Struct && j.O.Status == "proved" && structSamples < 4 {
+			structSamples++
+			samples = append(samples, map[string]any{"obligation": j.O.Name, "kind": j.O.Kind, "solver": "structural (no SMT query)", "detail": truncate(j.O.Detail, 300)})
+		}
 		total++
 		if j.Struct {
 			structural++
@@ -333,6 +339,16 @@ func cmdCheck(args []string) int {
 		"integer_semantics":         "mathematical integers with the declared type's range as a fact on inputs; overflow NOT checked (unchecked assumption)",
 		"undecided_clauses":         undecidedClauses[P],
 		"bounded":                   []string{},
+	}
+	for k, v := range map[string]any{"unclaimed_safety_obligations": unclaimed, "trusted_function_contracts": trustedFns, "functions_under_contract": fnsUnder, "reachability_covers": covers} {
+		if rv := reflect.ValueOf(v); !rv.IsValid() || (rv.Kind() == reflect.Slice && rv.IsNil()) {
+			cov[k] = []string{}
+		}
+	}
+	for _, k := range []string{"must_fail_corpus", "undecided_clauses"} {
+		if rv := reflect.ValueOf(cov[k]); !rv.IsValid() || ((rv.Kind() == reflect.Slice || rv.Kind() == reflect.Map) && rv.IsNil()) {
+			cov[k] = []string{}
+		}
 	}
 	ev.Coverage = cov
 	ev.Assumptions = assumptionsFor(e, keys)
